@@ -18,7 +18,7 @@ from symcore import HarnessError, Engine, Inconclusive
 
 PROP = 'C12'
 ALL_CODECS = ['ber', 'der', 'per', 'uper', 'oer', 'jer', 'xer', 'gser']
-IDS_QUICK = ['c12-paths', 'seq-opt', 'choice-ext', 'c11-nested', 'combo-uper6', 'seq-ext-group', 'combo-ref',
+IDS_QUICK = ['c12-paths', 'c12-choice-ext', 'shared-range', 'shared-size', 'seq-opt', 'choice-ext', 'c11-nested', 'combo-uper6', 'seq-ext-group', 'combo-ref',
              'enum', 'int-0-7', 'seqof-size', 'set-basic']
 IDS_MORE = ['combo-choice-seq', 'combo-depth3', 'combo-ext-nest', 'combo-set-choice', 'combo-str-seq', 'c11-ref',
             'c11-strings', 'combo-recursive', 'combo-rec-choice', 'tag-choice', 'combo-import']
@@ -54,8 +54,10 @@ def positions(spec, v, td, module, names, get, put, out, in_addition=False):
             if m['name'] == v[0]:
                 def putc(x, g=get, p=put):
                     p((g()[0], x))
+                # (an alternative after the extension marker is not an "addition" whose errors
+                # encode_additions() could swallow: only SEQUENCE/SET additions count)
                 positions(spec, v[1], m, rmod, names + [m['name']], (lambda g=get: g()[1]), putc, out,
-                          in_addition or is_add)
+                          in_addition)
     elif t in ('SEQUENCE OF', 'SET OF'):
         for i in range(len(v)):
             positions(spec, v[i], rtd['element'], rmod, names,
